@@ -1064,7 +1064,7 @@ func runC03(a runArgs) error {
 	trs := []string{"u", "ub", "t", "tb"}
 	nPerm, nEq := 14, 4
 	if a.tier == "thorough" {
-		nPerm, nEq = 150, 30
+		nPerm, nEq = 600, 100
 	}
 	for _, tr := range trs {
 		for n := 1; n <= 8; n++ {
